@@ -105,3 +105,79 @@ func CanReach(a, b ssa.Instruction) bool {
 	}
 	return false
 }
+
+// ControlDeps computes, for every block of fn, the blocks ending in a conditional branch (If, or the Next/TypeSwitch style
+// two-way jumps that go/ssa also lowers to If) on which it is directly control dependent (Ferrante–Ottenstein–Warren): B is
+// control dependent on A when A has a successor S such that B post-dominates S (or is S) but B does not strictly
+// post-dominate A.  Post-dominators are computed with a virtual exit that every Return and Panic block reaches.
+func ControlDeps(fn *ssa.Function) map[*ssa.BasicBlock][]*ssa.BasicBlock {
+	n := len(fn.Blocks)
+	if n == 0 {
+		return nil
+	}
+	// pdom[i] as bitset over n+1 nodes (index n = exit)
+	words := (n + 1 + 63) / 64
+	full := make([]uint64, words)
+	for i := 0; i <= n; i++ {
+		full[i/64] |= 1 << (uint(i) % 64)
+	}
+	pdom := make([][]uint64, n+1)
+	for i := 0; i < n; i++ {
+		pdom[i] = append([]uint64(nil), full...)
+	}
+	pdom[n] = make([]uint64, words)
+	pdom[n][n/64] |= 1 << (uint(n) % 64)
+	succs := func(b *ssa.BasicBlock) []int {
+		if len(b.Succs) == 0 {
+			return []int{n}
+		}
+		out := make([]int, 0, len(b.Succs))
+		for _, s := range b.Succs {
+			out = append(out, s.Index)
+		}
+		return out
+	}
+	for changed := true; changed; {
+		changed = false
+		for i := n - 1; i >= 0; i-- {
+			b := fn.Blocks[i]
+			cur := append([]uint64(nil), full...)
+			for _, s := range succs(b) {
+				for w := range cur {
+					cur[w] &= pdom[s][w]
+				}
+			}
+			cur[i/64] |= 1 << (uint(i) % 64)
+			for w := range cur {
+				if cur[w] != pdom[i][w] {
+					pdom[i] = cur
+					changed = true
+					break
+				}
+			}
+		}
+	}
+	has := func(set []uint64, i int) bool { return set[i/64]&(1<<(uint(i)%64)) != 0 }
+	out := map[*ssa.BasicBlock][]*ssa.BasicBlock{}
+	for _, a := range fn.Blocks {
+		if len(a.Succs) < 2 {
+			continue
+		}
+		for _, b := range fn.Blocks {
+			// b strictly post-dominates a?
+			if b != a && has(pdom[a.Index], b.Index) {
+				continue
+			}
+			dep := false
+			for _, s := range a.Succs {
+				if has(pdom[s.Index], b.Index) {
+					dep = true
+				}
+			}
+			if dep {
+				out[b] = append(out[b], a)
+			}
+		}
+	}
+	return out
+}
